@@ -92,6 +92,22 @@ class Monitor(object):
 
 
 MONITORS = {}
+
+
+def _oracle_failed(mon, e):
+    import traceback
+    from . import boot, core
+    ctx = core.CTX
+    if ctx is None:
+        raise e
+    site, in_repo = core.crash_site(e, boot.REPO)
+    tb = ''.join(traceback.format_exception(type(e), e, e.__traceback__))[-1500:]
+    if in_repo:
+        ctx.violation('oracle-call-raised/%s/%s@%s' % (mon.name, type(e).__name__, site),
+                      'the library raised %s under a (valid) call made by the oracle of %s: %s' % (
+                          type(e).__name__, mon.name, str(e)[:120]), {'traceback': tb})
+    else:
+        ctx.errors.append({'case': ctx.current, 'traceback': 'oracle of %s: %s' % (mon.name, tb)})
 _installed = []   # (owner, attr, original descriptor) for uninstall
 
 
@@ -132,6 +148,8 @@ def _make_wrapper(mon):
                 try:
                     if mon.on_exc(call) is not False:
                         mon.evals += 1
+                except Exception as oe:   # noqa  (the observer itself failed: see _oracle_failed)
+                    _oracle_failed(mon, oe)
                 finally:
                     STATE.suspend -= 1
             raise
@@ -141,6 +159,12 @@ def _make_wrapper(mon):
         try:
             if mon.post is not None and mon.post(call) is not False:
                 mon.evals += 1
+        except Exception as e:   # noqa
+            # An oracle raised.  It must not travel up through the monitored caller (an enclosing monitor would
+            # take it for the library raising in ITS function).  If the library raised under a call the oracle
+            # made (oracles only make calls that are valid by the statements) that is reported under its own
+            # key; anything else is a harness error (=> the run is inconclusive).
+            _oracle_failed(mon, e)
         finally:
             STATE.suspend -= 1
         return ret
